@@ -69,6 +69,11 @@ CHECKS = {
     text="A pipeline case is decorated with extra samples, arbitrary INFO/FORMAT/FILTER content, missing and partial genotypes, multi-ALT / symbolic / ALT-less / duplicate-position records and pre-existing phasing, then phased in-process with drawn --sample/--chromosome/--tag/--only-snvs; both files are parsed with htslib and every field outside the phase encoding must be identical, non-selected calls untouched, newly phased calls restricted to heterozygous supported records, header definitions preserved.",
     note="Trusted: htslib parsing of both files; complete headers; diploid genotypes; Integer PS.",
     ref="DESIGN.md section 4, C04"),
+ "C05": dict(
+    technique="property-based testing (Hypothesis) of `whatshap phase --ped`; oracle = Mendel rules on the generator's genotypes, forced phases, and convention-free transmission consistency from the trace hook",
+    text="Trios and quartets with planted recombinations, Mendelian conflicts and missing genotypes, reads at depth 0-6 or no phase input at all, uniform and map-based recombination costs are phased in-process; the output is checked for paternal|maternal order, exclusion of conflicting/missing variants in all members, phasing of read-free forced variants, and agreement between changes of the reported transmission bits and changes of the transmitted parental haplotype.",
+    note="Trusted: the generator's pedigree model; the transmission vector as dumped by the guarded trace hook; only bit *changes* are interpreted.",
+    ref="DESIGN.md section 4, C05"),
 }
 
 NOT_YET = {}
